@@ -7,4 +7,6 @@ require (
 	pgregory.net/rapid v1.3.0
 )
 
+require golang.org/x/sync v0.1.0 // indirect
+
 replace github.com/github/go-pipe => ./third_party/go-pipe
